@@ -250,9 +250,14 @@ structure Env (Val : Type) where
   postInit : Bool := false
   /-- the observe machinery: is the property's handler called for this change? -/
   fires : Heap → Mutation → Bool
-  /-- a handler registered on the mutated trait *before* / *after* the
-  property's own observer reads the property (static `_x_changed` methods and
-  `@observe` methods come before, handlers attached later come after) -/
+  /-- a handler on the mutated trait that reads the property and sits *before* /
+  *after* the property's own observer in that trait's notifier list
+  (ctraits.c:2293-2310: class-level notifiers, then instance-level ones, each in
+  registration order).  Static `_x_changed` methods and `@observe` /
+  `@on_trait_change` methods always come before; a handler attached later comes
+  after exactly when the property's observer was already hooked on that trait
+  — the hook of a nested dependency is (re)created when a link starts to reach
+  it, so this is a fact about the history, supplied here as a parameter. -/
   sibPre : Mutation → Bool := fun _ => false
   sibPost : Mutation → Bool := fun _ => false
 
@@ -409,6 +414,36 @@ def firesSpec (E : Expr) (root : Id) : Heap → Mutation → Bool :=
   fun h m => relevant E root h m
 
 
+/-! ## Canonical getters (the ones the correspondence check instantiates)
+
+`viewGetter` serialises everything the expression selects (the most
+discriminating getter satisfying the user contract); `sumGetter` is a lossy one
+(distinct views may give equal values) that can return the `Undefined`
+sentinel `"U"`. -/
+
+def showContent : Content → String
+  | .int v => toString v
+  | .ref none => "N"
+  | .ref (some i) => s!"#{i}"
+  | .ids l => "[" ++ ",".intercalate (l.map toString) ++ "]"
+  | .dict d => "{" ++ ",".intercalate (d.map (fun kv => s!"{kv.1}:{kv.2}")) ++ "}"
+  | .ints l => "<" ++ ",".intercalate (l.map toString) ++ ">"
+
+def viewGetter (E : Expr) (root : Id) (h : Heap) : String :=
+  "&".intercalate (foldExpr showContent (fun c l => showContent c ++ "(" ++ " ".intercalate l ++ ")") h E root)
+
+def sumLeaf : Content → Int
+  | .int v => v
+  | .ref none => 0
+  | .ref (some i) => Int.ofNat i + 1
+  | .ids l => (l.map (fun i => Int.ofNat i + 1)).foldl (· + ·) 0 + 100 * Int.ofNat l.length
+  | .dict d => (d.map (fun kv => kv.1 * 7 + Int.ofNat kv.2 + 1)).foldl (· + ·) 0
+  | .ints l => l.foldl (· + ·) 0 + 100 * Int.ofNat l.length
+
+def sumGetter (E : Expr) (root : Id) (undef : Bool) (h : Heap) : String :=
+  let t := (foldExpr sumLeaf (fun _ l => l.foldl (· + ·) 0) h E root).foldl (· + ·) 0
+  if undef && t % 5 == 3 then "U" else toString t
+
 /-! ## The source text this model was transcribed from
 
 Normalised (`ast.unparse`) text of the functions mirrored above, as they stand in
@@ -420,6 +455,9 @@ namespace Source
 def postInit : Bool := false
 def dispatch : String := "same"
 def handlerSrc : String := "def handler(instance, event):\n    if cached:\n        cache_name = TraitsCache + property_name\n        old = instance.__dict__.pop(cache_name, Undefined)\n    else:\n        old = Undefined\n    instance.trait_property_changed(property_name, old)"
+def observeStateSrc : String := "def _create_property_observe_state(observe, property_name, cached):\n\n    def handler(instance, event):\n        if cached:\n            cache_name = TraitsCache + property_name\n            old = instance.__dict__.pop(cache_name, Undefined)\n        else:\n            old = Undefined\n        instance.trait_property_changed(property_name, old)\n\n    def handler_getter(instance, name):\n        return types.MethodType(handler, instance)\n    graphs = _compile_expression(observe)\n    return dict(graphs=graphs, dispatch='same', handler_getter=handler_getter, post_init=False)"
+def wiringSrc : List String := ["if trait.type == 'property' and trait.depends_on is not None:\n    cached = trait.cached\n    if cached is True:\n        cached = TraitsCache + name\n    depends_on = trait.depends_on\n    if isinstance(depends_on, SequenceTypes):\n        depends_on = ','.join(depends_on)\n    else:\n        depends_on = ' ' + depends_on\n    listeners[name] = ('property', cached, depends_on)", "if trait.type == 'property' and trait.observe is not None:\n    observer_state = _create_property_observe_state(observe=trait.observe, property_name=name, cached=trait.cached)\n    observers[name] = [observer_state]"]
+def propertyMetadataSrc : List String := ["metadata.setdefault('depends_on', getattr(fget, 'depends_on', None))", "if getattr(fget, 'cached_property', False):\n    metadata.setdefault('cached', True)"]
 def cacheNameSrc : String := "name = TraitsCache + function.__name__[5:]"
 def cachedPropertySrc : String := "def decorator(self):\n    result = self.__dict__.get(name, Undefined)\n    if result is Undefined:\n        self.__dict__[name] = result = function(self)\n    return result"
 def legacyListenerSrc : String := "def _init_trait_property_listener(self, name, kind, cached, pattern):\n    if cached is None:\n\n        @weak_arg(self)\n        def notify(self):\n            self.trait_property_changed(name, None)\n    else:\n        cached_old = cached + ':old'\n\n        @weak_arg(self)\n        def pre_notify(self):\n            dict = self.__dict__\n            old = dict.get(cached_old, Undefined)\n            if old is Undefined:\n                dict[cached_old] = dict.pop(cached, None)\n        self.on_trait_change(pre_notify, pattern, priority=True, target=self)\n\n        @weak_arg(self)\n        def notify(self):\n            old = self.__dict__.pop(cached_old, Undefined)\n            if old is not Undefined:\n                self.trait_property_changed(name, old)\n    self.on_trait_change(notify, pattern, target=self)"
